@@ -44,14 +44,20 @@ def isConstant (n : Nat) : M (Option Val) := do
   | some (.const v) => pure (some v)
   | _ => pure none
 
+def resolveOpnd (loc : List Nat) (o : Opnd) : M Nat := do
+  match o with
+  | .outer k => match (← get).top[k]? with
+    | some n => pure n
+    | none => panic "model:bad-outer"
+  | .abs n => pure n
+  | .loc j => match loc[j]? with
+    | some n => pure n
+    | none => panic "model:bad-local"
+
 /-- elaborate one creation instruction; `loc` are the nodes created so far by this closure run,
 `lhsVal` the value the closure received -/
 def elabInstr (loc : List Nat) (lhsVal : Val) (i : Instr) : M (Option Nat) := do
-  let res (o : Opnd) : M Nat := match o with
-    | .outer n => pure n
-    | .loc j => match loc[j]? with
-      | some n => pure n
-      | none => panic "model:bad-local"
+  let res (o : Opnd) : M Nat := resolveOpnd loc o
   let sc := (← get).currentScope
   match i with
   | .const v => some <$> createNode (.const v) sc
@@ -88,11 +94,7 @@ def elabTemplate (t : Template) (lhsVal : Val) : M Nat := do
     match ← elabInstr loc lhsVal i with
     | some n => loc := loc ++ [n]
     | none => pure ()
-  match t.ret with
-  | .outer n => pure n
-  | .loc j => match loc[j]? with
-    | some n => pure n
-    | none => panic "model:bad-local"
+  resolveOpnd loc t.ret
 
 /-! ## var writes (`var.rs`) -/
 
